@@ -23,7 +23,7 @@ from props import c02
 PID = 'C04'
 TRANSLATORS = ['xsd_table']
 LEAN_MODULES = ['Pyc.Model.Schema']
-LEAN_PROPS = ['Pyc.Props.C04', 'Pyc.Props.C04b']
+LEAN_PROPS = ['Pyc.Props.C04', 'Pyc.Props.C04b', 'Pyc.Props.C04c']
 META = dict(
     level_text=('Proof of the per-element emission theorems over content models translated from the shipped XSD on every run + independent validation. '
                 'Pyc/Props/C04.lean proves, for unbounded numbers of children, that what the writer emits for <COLLADA>, the libraries, <source>, <mesh>, each primitive, '
@@ -273,6 +273,45 @@ def child_lines(data):
     return lines, actual
 
 
+def technique_ok(a):
+    """child names in the order the schema asks for: (asset), images / newparams, ONE shader element, extras"""
+    kids = a.split()
+    shad = [k for k in kids if k in ('constant', 'lambert', 'phong', 'blinn')]
+    return len(shad) == 1 and kids == sorted(kids, key=lambda k: 0 if k == 'asset' else 1 if k in ('image', 'newparam') else 3 if k == 'extra' else 2)
+
+
+def technique_case(rng):
+    """the real Effect.save on an effect loaded with the given `<technique>` children, after its shading type was set: (line, children written)"""
+    import collada
+    shaders = ['constant', 'lambert', 'phong', 'blinn']
+    kids = (['asset'] if rng.random() < 0.3 else []) + [rng.choice(['image', 'newparam']) for _ in range(rng.randint(0, 3))] \
+        + [rng.choice(shaders)] + ['extra'] * rng.choice([0, 0, 1, 2, 3])
+    s = rng.choice(shaders)
+    body = ''
+    for n, k in enumerate(kids):
+        if k == 'asset':
+            body += '<asset><created>2001-01-01T00:00:00</created><modified>2001-01-01T00:00:00</modified></asset>'
+        elif k == 'image':
+            body += '<image id="ti%d"><init_from>x.png</init_from></image>' % n
+        elif k == 'newparam':
+            body += '<newparam sid="tp%d"><float>1</float></newparam>' % n
+        elif k == 'extra':
+            body += '<extra><technique profile="X"><a>1</a></technique></extra>'
+        elif rng.random() < 0.4:
+            body += '<%s/>' % k          # every parameter of a shader is optional
+        else:
+            body += '<%s><emission><color>0 0 0 1</color></emission></%s>' % (k, k)
+    xml = ('<COLLADA xmlns="%s" version="1.4.1"><asset><created>2001-01-01T00:00:00</created><modified>2001-01-01T00:00:00</modified></asset>'
+           '<library_effects><effect id="fx"><profile_COMMON><technique sid="common">%s</technique></profile_COMMON></effect></library_effects></COLLADA>'
+           % (NS[1:-1], body))
+    d = collada.Collada(io.BytesIO(xml.encode()))
+    e = d.effects[0]
+    e.shadingtype = s
+    e.save()
+    t = e.xmlnode.find(NS + 'profile_COMMON').find(NS + 'technique')
+    return 'tech %s ; %s' % (s, ' '.join(kids)), ' '.join(c.tag[len(NS):] for c in t)
+
+
 def run(ctx):
     ctx.rule = ('schema-respecting models: constructed in schema mode (NCName ids, RGBA colours, shader-specific parameters, node children in schema order, non-empty scenes) '
                 'and shipped schema-valid documents, after 0-10 random edits re-normalised to the user-side constraints; each written document validated by Xerces and recounted; '
@@ -323,9 +362,31 @@ def run(ctx):
     if ctx.lean_ok:
         from props import c04_trees
         c04_trees.run(ctx, docs[:ctx.n(60, 800)], child_lines, reported)
+        # Effect.save and the place of the shader element (Pyc.Schema.saveTechnique, Props/C04c.save_technique_valid)
+        tl, ta, tk = [], [], []
+        for i in range(ctx.n(150, 3000)):
+            key = 'c04t/%s/%d' % (ctx.rng.randrange(10 ** 9), i)
+            try:
+                l, a = technique_case(random.Random(key))
+            except Exception as e:
+                core.note_skip('c04:technique-case', e)
+                continue
+            tl.append(l); ta.append(a); tk.append(key)
+        for l, a, m, key in zip(tl, ta, ctx.driver('C04', tl) if tl else [], tk):
+            ctx.count('emit:technique')
+            if a != m and 'corr:technique' not in reported:
+                reported.add('corr:technique')
+                ok = technique_ok(a)
+                ctx.violation('corr:technique', 'Effect.save: children of <technique> for %r are %r, Pyc.Schema.saveTechnique gives %r%s'
+                              % (l, a, m, '' if ok else ' — and what was written is not the order the schema asks for (asset, images/newparams, ONE shader, extras)'),
+                              dict(kind='technique', line=l, key=key), found_input=not ok)
 
 
 def replay(ctx, rep):
+    if rep.get('kind') == 'technique':
+        l, a = technique_case(random.Random(rep['key']))
+        print('  Effect.save on %r writes the <technique> children %r' % (l, a))
+        return not technique_ok(a)
     doc, hist = build_case(rep['base'], rep['seed'], rep['nops'])
     b = io.BytesIO()
     try:
